@@ -58,6 +58,10 @@ pub struct Call {
     /// callback (0 = never)
     #[serde(default)]
     pub reenter: u64,
+    /// the call is made a second time from a destructor that runs because a panic is propagating on
+    /// the calling thread; it must give what it gives normally
+    #[serde(default)]
+    pub during_unwind: bool,
 }
 
 /// Caller-owned token type for `basic_annotate`.
@@ -247,9 +251,38 @@ fn exec_with<L: LangInterpreter>(l: &L, call: &Call, yield_on: bool) -> String {
     }
 }
 
+pub const UNWIND_MARK: &str = "UNWIND-MISMATCH ";
+
 /// Execute a call on the given set of interpreters.
 pub fn exec_call(ls: &Langs, call: &Call, yield_on: bool) -> String {
-    with_lang!(ls, call.lang, call.concrete, l => exec_with(l, call, yield_on))
+    let normal = with_lang!(ls, call.lang, call.concrete, l => exec_with(l, call, yield_on));
+    if !call.during_unwind {
+        return normal;
+    }
+    // the same call again, from a destructor that runs during unwinding
+    struct OnDrop<'a> {
+        ls: &'a Langs,
+        call: &'a Call,
+        yield_on: bool,
+        out: &'a std::cell::RefCell<Option<String>>,
+    }
+    impl Drop for OnDrop<'_> {
+        fn drop(&mut self) {
+            let r = with_lang!(self.ls, self.call.lang, self.call.concrete, l => exec_with(l, self.call, self.yield_on));
+            *self.out.borrow_mut() = Some(r);
+        }
+    }
+    let out = std::cell::RefCell::new(None);
+    let _ = std::panic::catch_unwind(std::panic::AssertUnwindSafe(|| {
+        let _g = OnDrop { ls, call, yield_on, out: &out };
+        panic!("unrelated panic propagating on the calling thread");
+    }));
+    let unwinding = out.borrow_mut().take().unwrap_or_else(|| "<destructor did not run>".to_string());
+    if unwinding != normal {
+        format!("{UNWIND_MARK}normally {normal:?}, from a destructor during unwinding {unwinding:?}")
+    } else {
+        normal
+    }
 }
 
 pub fn gen_call(rng: &mut Rng) -> Call {
@@ -338,7 +371,9 @@ pub fn gen_call(rng: &mut Rng) -> Call {
     };
     let crash_at = if rng.chance(1, 6) { rng.range(1, 25) as u64 } else { 0 };
     let reenter = if rng.chance(1, 8) { rng.range(1, 6) as u64 } else { 0 };
-    Call { lang, concrete, op, crash_at, reenter }
+    // crash_at panics inside the call: nested panics while unwinding would abort, so only crash-free calls
+    let during_unwind = crash_at == 0 && rng.chance(1, 10);
+    Call { lang, concrete, op, crash_at, reenter, during_unwind }
 }
 
 /// The corpus and its reference table (computed in a pristine child process).
@@ -448,7 +483,10 @@ pub fn variant_of(rng: &mut Rng, c: &Call) -> Call {
             // same stream, another consumer schedule
             Op::FindIter { requests, .. } => *requests = *rng.pick(&[0usize, 1, 2, 3, 100]),
             Op::Raw { decimal_from, words } => *decimal_from = if *decimal_from == usize::MAX { rng.range(1, words.len().max(1)) } else { usize::MAX },
-            _ => v.crash_at = if c.crash_at == 0 { rng.range(1, 20) as u64 } else { 0 },
+            _ => {
+                v.crash_at = if c.crash_at == 0 { rng.range(1, 20) as u64 } else { 0 };
+                v.during_unwind = false;
+            }
         },
         10 | 11 => {
             // the very same call through another language (same type when both are the facade)
@@ -457,7 +495,10 @@ pub fn variant_of(rng: &mut Rng, c: &Call) -> Call {
                 v.concrete = false;
             }
         }
-        1 => v.crash_at = if c.crash_at == 0 { rng.range(1, 20) as u64 } else { 0 },
+        1 => {
+            v.crash_at = if c.crash_at == 0 { rng.range(1, 20) as u64 } else { 0 };
+            v.during_unwind = false;
+        }
         2 => {
             let t = (*rng.pick(&THRESHOLDS)).to_string();
             match &mut v.op {
@@ -558,17 +599,17 @@ fn systematic_families(rng: &mut Rng, budget: usize) -> Vec<Call> {
                 rng.word(pool.units),
                 rng.word(pool.content)
             );
-            out.push(Call { lang, concrete: rng.chance(1, 2), op: Op::Rewrite { text, thr: "0".into() }, crash_at: 0, reenter: 0 });
+            out.push(Call { lang, concrete: rng.chance(1, 2), op: Op::Rewrite { text, thr: "0".into() }, crash_at: 0, reenter: 0, during_unwind: false });
         }
         // two long calls per language (positions in the hundreds)
         {
             let cfg = GenCfg::swarm(rng);
             let n = rng.range(300, 600);
             let toks = gen_stream(rng, pool, &GenCfg { glue_pct: 0, ..cfg.clone() }, n);
-            out.push(Call { lang, concrete: rng.chance(1, 2), op: Op::Find { toks, thr: "0".into() }, crash_at: 0, reenter: 0 });
+            out.push(Call { lang, concrete: rng.chance(1, 2), op: Op::Find { toks, thr: "0".into() }, crash_at: 0, reenter: 0, during_unwind: false });
             let n = rng.range(300, 600);
             let text = gen_text(rng, pool, &cfg, n);
-            out.push(Call { lang, concrete: rng.chance(1, 2), op: Op::Rewrite { text, thr: "10".into() }, crash_at: 0, reenter: 0 });
+            out.push(Call { lang, concrete: rng.chance(1, 2), op: Op::Rewrite { text, thr: "10".into() }, crash_at: 0, reenter: 0, during_unwind: false });
         }
         let start = out.len();
         'w: for w in &words {
@@ -582,7 +623,7 @@ fn systematic_families(rng: &mut Rng, budget: usize) -> Vec<Call> {
                     1 => Op::Raw { words: vec![v.to_lowercase()], decimal_from: usize::MAX },
                     _ => Op::T2d { text: v },
                 };
-                out.push(Call { lang, concrete, op, crash_at: 0, reenter: 0 });
+                out.push(Call { lang, concrete, op, crash_at: 0, reenter: 0, during_unwind: false });
             }
         }
     }
@@ -754,6 +795,12 @@ impl Check for C14 {
                     if *requests < 100 {
                         stats.hit("fault.abandoned_lazy_iterator");
                     }
+                }
+                if got.starts_with(UNWIND_MARK) && violation.is_none() {
+                    violation = Some(Violation {
+                        oracle: "H6-unwinding".into(),
+                        detail: format!("thread {ti} call #{k} {}: {}", serde_json::to_string(call).unwrap_or_default(), got),
+                    });
                 }
                 if got.starts_with(REENTRANT_MARK) && violation.is_none() {
                     violation = Some(Violation {
